@@ -12,7 +12,7 @@ open PM
 open PM.SchemaCompile
 open PM.SchemaBuild
 open PM.C14
-open PM.Gen PM.Family
+open PM.Gen PM.Family PM.FromDom
 
 /-- `PM.C14.excluded_lt` with its schema guards discharged for the bundled schema family -/
 theorem excluded_lt {spec : Spec} {S : Schema} (hS : (spec, S) ∈ familySpecs) (a b : Nat)
